@@ -17,7 +17,7 @@ STRENGTHENED = {
     "C20-agent-3": "MISSED at first (constructor always got a fresh list); caught after the `second_tree` operation and the caller-list check were added",
     "C02-agent-1": "MISSED at first by the quick tier (thorough caught it once in 532 k runs, on a medium z3-judged formula with GC threshold 16); caught by quick after a 15 % slice of medium near-threshold 3-SAT with GC threshold 2-16 was added",
     "C02-agent-3": "MISSED at first (verdicts stay right); caught after the budget rule was added: more than max_conflicts + n_vars + 1 analysed conflicts, or more than max_restarts restarts, is `budget_ignored`",
-    "C04-agent-1": "MISSED at first (no duplicated rows, no mixed binary/general-integer slice); caught after redundant rows and the nearly-binary family were added (2 hits in 16 k quick runs: marginal, the thorough tier is the reliable detector)",
+    "C04-agent-1": "MISSED at first (no duplicated rows, no mixed binary/general-integer slice); caught after redundant rows and the nearly-binary family were added (2 hits in 16 k quick runs at first; 12-50 hits per quick run at seeds 0-2 with the final generator)",
     "C04-agent-3": "MISSED at first (no warm start violated only x >= 0); caught after the `negative_entry` warm-start kind was added",
     "C15-agent2-2": "MISSED at first (the neighbour table handed out the very label objects of the node list); caught after `fresh` labels (equal, not identical; also tuple and large-int labels) were added",
     "C01-agent-2": "would have been MISSED (no clause repeated a literal; the author's own 150 k random enumerations without repeats saw nothing); caught after the duplicate-literal / tautology clause shapes were added",
